@@ -823,9 +823,15 @@ Inductive act :=
 | ADocSet (sp : json) (k : str) (v : json)   (* project.open_job(sp).doc[k] = v                    *)
 | ADocRead (sp : json)                       (* project.open_job(sp).doc()                         *)
 | ALen                                       (* len(project)                                       *)
+| APDocSet (k : str) (v : json)              (* project.doc[k] = v                                 *)
+| APDocRead                                  (* project.doc()                                      *)
 | ARmWs.                                     (* outside the property's alphabet: os.rmdir(workspace), errors ignored *)
 
 Inductive aobs := OUnit | ODoc (j : json) | ONum (n : nat).
+
+(* the project document lives next to the workspace directory *)
+(* "signac_project_document.json" *)
+Definition PDOCF : str := [115;105;103;110;97;99;95;112;114;111;106;101;99;116;95;100;111;99;117;109;101;110;116;46;106;115;111;110]%N.
 
 Definition doc_set (d : json) (k : str) (v : json) : json :=
   match d with JObj kvs => JObj (aset k v kvs) | _ => d end.
@@ -837,6 +843,7 @@ Section ACTORS.
   Variable ws : path.
 
   Definition docfile_of (sp : json) : path := ws ++ [calc_id frepr sp; DOCF].
+  Definition pdocfile : path := parent ws ++ [PDOCF].
 
   Definition act_prog {A} (a : act) (k : aobs -> prog A) : prog A :=
     match a with
@@ -861,6 +868,15 @@ Section ACTORS.
           | inl _ => doc_load (docfile_of sp) (fun rd => match rd with inl d => k (ODoc d) | inr e => Raise e end)
           end)
     | ALen => project_len ws (fun r => match r with inl n => k (ONum n) | inr e => Raise e end)
+    (* Project.document: no directory is created or probed; load (a missing file is {}), then save *)
+    | APDocSet key v =>
+        doc_load pdocfile (fun rd =>
+          match rd with
+          | inr e => Raise e
+          | inl d => doc_store frepr tag pdocfile (doc_set d key v)
+                       (fun rs => match rs with inl _ => k OUnit | inr e => Raise e end)
+          end)
+    | APDocRead => doc_load pdocfile (fun rd => match rd with inl d => k (ODoc d) | inr e => Raise e end)
     | ARmWs => Do (CRmdir ws) (fun _ => k OUnit)
     end.
 
